@@ -25,7 +25,7 @@ func normalizeTaxIdentity(tID *tax.Identity) {
 	}
 	// also allow for usage of "GR" which may be used in the tax code
 	// by accident.
-	tax.NormalizeIdentity(tID, l10n.GR)
+	tax.NormalizeIdentity(tID, l10n.GR, l10n.EL)
 	tID.Country = "EL" // always override for greece
 }
 
